@@ -733,3 +733,17 @@ def widen(rng, tier):
         yield _with_cn(rng, c05._structured(rng, small=True))
     for _ in range(40 if tier == "quick" else 400):
         yield _pair(rng)
+
+
+# --- regeneration tie (harness/gentie.py): the formulas of the hand model SnowModel/OpCond.lean (and the time axis of
+# Flake.lean) are re-derived from /repo's source on every run and proved equal to the generated text
+# (lean/SnowProofs/Props/GenTie/OpCond.lean)
+import gentie  # noqa: E402
+THEOREMS = THEOREMS + gentie.theorems("OpCond")
+extra_lean_targets = list(globals().get("extra_lean_targets", [])) + [gentie.module("OpCond")]
+TRUSTED = TRUSTED + ["harness/translate.py formula extraction (single assignments -> Lean definitions; anything outside "
+                     "its tiny language is a TranslatorError)"]
+
+
+def regenerate():
+    gentie.regenerate("OpCond")
